@@ -3,6 +3,7 @@ package rules
 import (
 	"go/token"
 	"go/types"
+	"sort"
 	"strings"
 
 	. "abverif/internal/engine"
@@ -65,6 +66,32 @@ func C08(c *Ctx) {
 	for _, a := range handler.AnonFuncs {
 		fail = a
 	}
+	// refusal modes: when the refusal is a closure of its own it is one outcome
+	// ("fail") and is decided separately; when it is written out in the handler
+	// (or in helpers inlined into it) the table gets one more dimension
+	respConsts := map[string]int64{}
+	for nm, m := range c.P.ByPath[RepoPath].Members {
+		if nc, ok := m.(*ssa.NamedConst); ok && strings.HasSuffix(nc.Type().String(), ".MWRespondOnFailure") {
+			if v, ok := ConstInt(nc.Value); ok {
+				respConsts[nm] = v
+			}
+		}
+	}
+	refusalOf := map[string]string{"RespondNotFound": "status404", "RespondUnauthorized": "status401", "RespondRedirect": "redirect"}
+	modes := []string{""}
+	if fail == nil {
+		modes = nil
+		for nm := range refusalOf {
+			if _, ok := respConsts[nm]; ok {
+				modes = append(modes, nm)
+			}
+		}
+		sort.Strings(modes)
+		if len(modes) != 3 {
+			r.Unknown("C08.tt", FuncName(mw), "refusal modes", "-", "the refusal is written out in the handler but the MWRespondOnFailure constants were not all found")
+			return
+		}
+	}
 	hn := FuncName(handler)
 	full := c.P.ConstInt("", "RequireFullAuth")
 	two := c.P.ConstInt("", "Require2FA")
@@ -98,77 +125,124 @@ func C08(c *Ctx) {
 		if mc, ok := cc.Value.(*ssa.MakeClosure); ok && fail != nil && mc.Fn == fail {
 			return "fail"
 		}
+		if Callee(call) == fnRedirect {
+			return "redirect"
+		}
 		if cc.IsInvoke() && (cc.Method.Name() == "Write" || cc.Method.Name() == "Redirect" || cc.Method.Name() == "Respond") {
 			return "other:" + cc.Method.Name()
 		}
 		return ""
 	}
 	rows, bad := 0, 0
-	for mask := 0; mask < 16; mask++ {
-		aF, aFull, aT, aTwo := mask&1 != 0, mask&2 != 0, mask&4 != 0, mask&8 != 0
-		for _, ek := range []string{"notfound", "other", "nil"} {
-			rows++
-			w := Walk{Atom: func(v ssa.Value) (bool, bool) {
-				if call, _ := CallOf(v); call != nil {
-					switch Callee(call) {
-					case "ab.hasBit":
-						if n, isC := ConstInt(Arg(call, 1)); isC {
-							if n == full {
-								return aF, true
-							}
-							if n == two {
-								return aT, true
+	for _, mode := range modes {
+		for mask := 0; mask < 16; mask++ {
+			aF, aFull, aT, aTwo := mask&1 != 0, mask&2 != 0, mask&4 != 0, mask&8 != 0
+			for _, ek := range []string{"notfound", "other", "nil"} {
+				rows++
+				w := Walk{Atom: func(v ssa.Value) (bool, bool) {
+					// the configured refusal mode compared with a constant
+					if b, ok := v.(*ssa.BinOp); ok && mode != "" && (b.Op == token.EQL || b.Op == token.NEQ) && strings.HasSuffix(b.X.Type().String(), ".MWRespondOnFailure") {
+						if n, isC := ConstInt(b.Y); isC {
+							if _, isC2 := ConstInt(b.X); !isC2 {
+								return (n == respConsts[mode]) == (b.Op == token.EQL), true
 							}
 						}
-					case "ab.IsFullyAuthed":
-						return aFull, true
-					case "ab.IsTwoFactored":
-						return aTwo, true
 					}
-				}
-				if rel := Normalize(v, true); rel.Op == token.EQL || rel.Op == token.NEQ {
-					x, y := rel.X, rel.Y
-					for k := 0; k < 2; k++ {
-						if flowsTo(errV, x, 0) {
-							if IsNilConst(y) {
-								return (ek == "nil") == (rel.Op == token.EQL), true
+					if call, _ := CallOf(v); call != nil {
+						switch Callee(call) {
+						case "ab.hasBit":
+							if n, isC := ConstInt(Arg(call, 1)); isC {
+								if n == full {
+									return aF, true
+								}
+								if n == two {
+									return aT, true
+								}
 							}
-							if g := loadOfGlobal(y); g != nil && globalName(g) == "ab.ErrUserNotFound" {
-								return (ek == "notfound") == (rel.Op == token.EQL), true
-							}
+						case "ab.IsFullyAuthed":
+							return aFull, true
+						case "ab.IsTwoFactored":
+							return aTwo, true
 						}
-						x, y = y, x
+					}
+					// the bit test written out: reqs&K == K, reqs&K != 0
+					if b, ok := v.(*ssa.BinOp); ok && (b.Op == token.EQL || b.Op == token.NEQ) {
+						x, y := b.X, b.Y
+						for k := 0; k < 2; k++ {
+							if and, isA := x.(*ssa.BinOp); isA && and.Op == token.AND {
+								m, okM := ConstInt(and.Y)
+								if !okM {
+									m, okM = ConstInt(and.X)
+								}
+								o, okO := ConstInt(y)
+								if okM && okO && (m == full || m == two) {
+									val := aF
+									if m == two {
+										val = aT
+									}
+									if o == m {
+										return val == (b.Op == token.EQL), true
+									}
+									if o == 0 {
+										return val == (b.Op == token.NEQ), true
+									}
+								}
+							}
+							x, y = y, x
+						}
+					}
+					if rel := Normalize(v, true); rel.Op == token.EQL || rel.Op == token.NEQ {
+						x, y := rel.X, rel.Y
+						for k := 0; k < 2; k++ {
+							if flowsTo(errV, x, 0) {
+								if IsNilConst(y) {
+									return (ek == "nil") == (rel.Op == token.EQL), true
+								}
+								if g := loadOfGlobal(y); g != nil && globalName(g) == "ab.ErrUserNotFound" {
+									return (ek == "notfound") == (rel.Op == token.EQL), true
+								}
+							}
+							x, y = y, x
+						}
+					}
+					return false, false
+				}}
+				refusal := "fail"
+				if mode != "" {
+					refusal = refusalOf[mode]
+				}
+				want := "next"
+				if (aF && !aFull) || (aT && !aTwo) {
+					want = refusal
+				} else if ek == "notfound" {
+					want = refusal
+				} else if ek == "other" {
+					want = "status500"
+				}
+				traces := w.Traces(handler)
+				rowOK := len(traces) > 0
+				got := ""
+				for _, t := range traces {
+					var outs []string
+					for _, in := range t.Instrs {
+						if o := outcome(in); o != "" {
+							outs = append(outs, o)
+						}
+					}
+					got = strings.Join(outs, "+")
+					if t.End == nil || len(outs) != 1 || outs[0] != want {
+						rowOK = false
+						break
 					}
 				}
-				return false, false
-			}}
-			want := "next"
-			if (aF && !aFull) || (aT && !aTwo) {
-				want = "fail"
-			} else if ek == "notfound" {
-				want = "fail"
-			} else if ek == "other" {
-				want = "status500"
-			}
-			traces := w.Traces(handler)
-			rowOK := len(traces) > 0
-			got := ""
-			for _, t := range traces {
-				var outs []string
-				for _, in := range t.Instrs {
-					if o := outcome(in); o != "" {
-						outs = append(outs, o)
+				if !rowOK {
+					bad++
+					ms := ""
+					if mode != "" {
+						ms = " refusal=" + mode
 					}
+					r.Bad("C08.tt", hn, sprintf("row full-req=%v fully-authed=%v 2fa-req=%v two-factored=%v load=%s%s", aF, aFull, aT, aTwo, ek, ms), c.P.Pos(handler.Pos()), sprintf("outcome %q, specification %q", got, want))
 				}
-				got = strings.Join(outs, "+")
-				if t.End == nil || len(outs) != 1 || outs[0] != want {
-					rowOK = false
-					break
-				}
-			}
-			if !rowOK {
-				bad++
-				r.Bad("C08.tt", hn, sprintf("row full-req=%v fully-authed=%v 2fa-req=%v two-factored=%v load=%s", aF, aFull, aT, aTwo, ek), c.P.Pos(handler.Pos()), sprintf("outcome %q, specification %q", got, want))
 			}
 		}
 	}
@@ -182,7 +256,9 @@ func C08(c *Ctx) {
 	c.c08Atoms(full, two)
 	// (3) fail table
 	if fail == nil {
-		r.Unknown("C08.fail", hn, "fail closure", "-", "fail closure not found")
+		// the refusal is written out in the handler: its mode table is part of the
+		// truth table above; the redirect construction is checked where it is
+		c.c08Redirect(handler)
 	} else {
 		c.c08Fail(fail)
 	}
@@ -195,8 +271,15 @@ func C08(c *Ctx) {
 
 func (c *Ctx) c08Atoms(full, two int64) {
 	r := c.R
-	hb := c.P.Func("ab.hasBit")
-	ok := false
+	hb := c.P.FuncOpt("ab.hasBit")
+	if hb == nil {
+		// the bit test is written out at its uses (the truth table reads reqs&K == K directly)
+		r.Info("C08.atoms", "ab", "hasBit", "-", "no hasBit helper: bit tests are read where they are written")
+	}
+	ok := hb == nil
+	if hb == nil {
+		hb = c.P.Func("ab.MountedMiddleware2")
+	}
 	for _, b := range hb.Blocks {
 		for _, in := range b.Instrs {
 			ret, isRet := in.(*ssa.Return)
@@ -222,7 +305,9 @@ func (c *Ctx) c08Atoms(full, two int64) {
 			}
 		}
 	}
-	r.Check(ok, "C08.atoms", FuncName(hb), "reqs&req==req", c.P.Pos(hb.Pos()), "bit test", "hasBit is not reqs&req == req")
+	if FuncName(hb) == "ab.hasBit" {
+		r.Check(ok, "C08.atoms", FuncName(hb), "reqs&req==req", c.P.Pos(hb.Pos()), "bit test", "hasBit is not reqs&req == req")
+	}
 	gsf := c.P.Func(fnGetSession)
 	okPT, whyPT := c.presencePassThrough(gsf, 0)
 	r.Check(okPT, "C08.atoms", FuncName(gsf), "GetSession = ClientState.Get", c.P.Pos(gsf.Pos()), "value and presence flag handed through unaltered", "GetSession does not hand the session state's answer through unaltered: "+whyPT)
@@ -401,6 +486,14 @@ func (c *Ctx) c08Fail(fail *ssa.Function) {
 		}
 		r.Check(okRow, "C08.fail", fnm, "case "+name, c.P.Pos(fail.Pos()), "refusal is "+want[name], sprintf("refusal mode %s produces %q, specification %q", name, got, want[name]))
 	}
+	c.c08Redirect(fail)
+}
+
+// c08Redirect: construction of the login redirect in fail (the refusal
+// closure, or the handler when the refusal is written out there).
+func (c *Ctx) c08Redirect(fail *ssa.Function) {
+	r := c.R
+	fnm := FuncName(fail)
 	// redirect target construction
 	redirKey := c.P.ConstString("", "FormValueRedirect")
 	nSet := 0
@@ -416,7 +509,8 @@ func (c *Ctx) c08Fail(fail *ssa.Function) {
 		r.Check(hasField(os, "URL.RawQuery"), "C08.redir", fnm, "redir value ⊇ URL.RawQuery", pos, "carries the original query", "redirect parameter does not carry the request query")
 		// shape: last concatenation appends "?"+RawQuery to a value that does not contain RawQuery
 	}
-	r.Check(nSet == 1, "C08.redir", fnm, "vals.Set(redir, …)", c.P.Pos(fail.Pos()), "one assignment of the return target", sprintf("expected one vals.Set(%q, …), found %d", redirKey, nSet))
+	// (a refusal written out in the handler appears once per refusing branch)
+	r.Check(nSet == 1 || (nSet > 1 && fail.Parent() != nil && len(fail.AnonFuncs) == 0 && len(CallsTo(fail, fnLoadCurrentUser)) > 0), "C08.redir", fnm, "vals.Set(redir, …)", c.P.Pos(fail.Pos()), "one assignment of the return target per refusal", sprintf("expected one vals.Set(%q, …), found %d", redirKey, nSet))
 	for _, call := range Calls(fail) {
 		n := Callee(call)
 		if n != "path.Join" && n != "path.Clean" && n != "path/filepath.Join" && n != "path/filepath.Clean" {
@@ -441,12 +535,20 @@ func (c *Ctx) c08Fail(fail *ssa.Function) {
 			if rel.B == nil || !rel.Pol {
 				return false
 			}
+			if fieldLoadName(rel.B) == "mountPathed" {
+				return true // the flag kept in a struct
+			}
 			x := rel.B
 			if u, ok := x.(*ssa.UnOp); ok {
 				x = u.X
 			}
-			fv, ok := x.(*ssa.FreeVar)
-			return ok && fv.Name() == "mountPathed"
+			switch v := x.(type) {
+			case *ssa.FreeVar:
+				return v.Name() == "mountPathed"
+			case *ssa.Parameter:
+				return v.Name() == "mountPathed"
+			}
+			return false
 		})
 		nonEmpty := HasFact(fs, func(f Fact) bool {
 			rel := f.Rel()
@@ -504,6 +606,18 @@ func (c *Ctx) c08Deprecated(mw2 *ssa.Function, full, two int64) {
 		}
 		fr := Arg(call, 3)
 		okFR := false
+		if n, isC := ConstInt(fr); isC {
+			// one call per outcome: the constant passed must match the side of the flag the call is on
+			fs := FactsAtInstr(call.(ssa.Instruction))
+			underT := HasFact(fs, func(f Fact) bool { return f.SaysBool(pRedir, true) })
+			underF := HasFact(fs, func(f Fact) bool { return f.SaysBool(pRedir, false) })
+			if !underF && !underT {
+				// the fall-through call after `if redirectToLogin { return … }`
+				q := PathQuery{StartBlock: mm.Blocks[0], Assume: map[ssa.Value]bool{pRedir: true}, Goal: func(i ssa.Instruction) bool { return i == call.(ssa.Instruction) }}
+				underF = q.Find() == nil
+			}
+			okFR = (n == redirect && underT) || (n == notFound && underF)
+		}
 		if phi, ok := fr.(*ssa.Phi); ok {
 			okFR = true
 			for i, e := range phi.Edges {
